@@ -165,6 +165,8 @@ def drive(rec):
 
 
 def run(ctx):
+    from harness import tlaps
+    ctx.notes["tlaps"] = tlaps.prove("proofs/ElementProofs.tla")     # the ordering is a strict total order on all integers
     res = tlc.run("mc/MC_Element.tla", MC_CFG % ("TRUE", ctx.pick(3, 1)), timeout=900)
     ctx._account(res, "MC_Element(check + emit)")
     if not res.ok:
